@@ -445,7 +445,7 @@ func init() {
 			c.ruleReplayPartition()
 			c.ruleSoftResetEntry()
 			c.ruleAdjCloneKeepsRejection()
-			c.ruleRequires("E1.requires", []reqRow{requiresTable[len(requiresTable)-1]}, 1)
+			c.ruleRequires("E1.requires", requiresFor(lkRR), 1)
 			c.ruleBookkeepingLocks("E1b.bookkeeping")
 			c.rulePairing("E6.send-recorded")
 		},
